@@ -190,6 +190,19 @@ def rust_debug(s):
     return "".join(out)
 
 
+def host_arg(v):
+    """rendering of a popped host-call argument as the executor logs it"""
+    if v is None:
+        return "nil"
+    if v is True:
+        return "true"
+    if v is False:
+        return "false"
+    if isinstance(v, int):
+        return str(v)
+    return rust_debug(v)
+
+
 def veq(a, b):
     if isinstance(a, Arr):
         return len(a.xs) == len(b.xs) and all(veq(x, y) for x, y in zip(a.xs, b.xs))
@@ -258,6 +271,8 @@ class Interp:
         self.max_steps = max_steps
         self.funcs = {f["name"]: f for f in prog["funcs"]}
         self.fnstack = ["<main>"]
+        self.hosts = {h["name"]: h for h in prog.get("hosts", [])}
+        self.host_idx = {}
 
     def tick(self):
         self.steps += 1
@@ -555,6 +570,16 @@ class Interp:
             raise AbraError("panic", "cannot unwrap option.none" if v.name == "none" else "cannot unwrap result.err")
         if k == "str":
             return render(self.expr(e[2], env))
+        if k == "hcall":
+            h = self.hosts[e[2]]
+            args = [self.expr(a, env) for a in e[3]]
+            self.out.append("<<%s(%s)>>\n" % (e[2], ";".join(host_arg(a) for a in args)))
+            i = self.host_idx.get(e[2], 0)
+            self.host_idx[e[2]] = i + 1
+            if h["ret"] == VOID:
+                return None
+            reps = h["replies"]
+            return reps[i] if i < len(reps) else reps[-1]
         raise ValueError(k)
 
     @property
@@ -670,6 +695,8 @@ def pexpr(e, em=None, top=False):
         return "%s!" % pexpr(e[2])
     if k == "str":
         return "ToString.str(%s)" % pexpr(e[2])
+    if k == "hcall":
+        return "%s(%s)" % (e[2], ", ".join(pexpr(a) for a in e[3]))
     raise ValueError(k)
 
 
@@ -792,6 +819,9 @@ def emit(prog):
     """-> (source text, linemap)"""
     em = Emitter()
     linemap = {}
+    for h in prog.get("hosts", []):
+        em.w("#host")
+        em.w("fn %s(%s) -> %s" % (h["name"], ", ".join("h%d: %s" % (i, t) for i, t in enumerate(h["params"])), h["ret"]))
     for name, fields in prog["structs"].items():
         em.w("type %s = {" % name)
         for f, t in fields:
@@ -829,7 +859,7 @@ class Gen:
     def __init__(self, rng, cfg=None):
         self.r = rng
         self.cfg = dict(size=40, depth=4, jumps_in_operands=True, lambdas=True, structs=True, enums=True,
-                        errors=True, nested_lambdas=True, trymode=True)
+                        errors=True, nested_lambdas=True, trymode=True, hosts=False)
         if cfg:
             self.cfg.update(cfg)
         self.structs = {}
@@ -844,6 +874,7 @@ class Gen:
         self.lambda_base = 0
         self.in_expr = 0
         self.features = set()
+        self.hosts = []
 
     def fresh(self, p="v"):
         self.nid += 1
@@ -900,6 +931,25 @@ class Gen:
         if k == 12 and allow_fn and self.cfg["lambdas"] and (not self.in_lambda or self.cfg["nested_lambdas"]):
             return ("fn", (self.rand_scalar(),), self.rand_scalar())
         return self.rand_scalar()
+
+    def setup_hosts(self):
+        r = self.r
+        for i in range(r.range(1, 3)):
+            params = [r.choice([INT, INT, BOOL, STR]) for _ in range(r.range(0, 3))]
+            ret = r.choice([INT, INT, BOOL, STR, VOID])
+            if ret == INT:
+                reps = [r.choice([0, 1, 7, -3, 100, MAX, MIN]) for _ in range(3)]
+            elif ret == BOOL:
+                reps = [r.chance(50) for _ in range(3)]
+            elif ret == STR:
+                reps = [r.choice(["", "h", "reply", "é€", "a b"]) for _ in range(3)]
+            else:
+                reps = []
+            self.hosts.append({"name": "hf%d" % i, "params": params, "ret": ret, "replies": reps})
+
+    def hcall(self, h, d):
+        self.features.add("host-call")
+        return ("hcall", h["ret"], h["name"], [self.expr(t, d - 1) for t in h["params"]])
 
     def setup_types(self):
         r = self.r
@@ -990,6 +1040,10 @@ class Gen:
             m = self.match_expr(ty, d)
             if m:
                 return m
+        if self.hosts and k >= 42 and k < 47:
+            hs = [h for h in self.hosts if h["ret"] == ty]
+            if hs:
+                return self.hcall(r.choice(hs), d)
         if k < 52:
             fs = [f for f in self.funcs if f["ret"] == ty and f.get("callable", True)]
             if fs:
@@ -1316,9 +1370,9 @@ class Gen:
         """remove arms that an earlier arm already covers (a redundant arm is a compile error)"""
         def covers(p, q):
             # does pattern p match everything q matches? (conservative, structural)
-            if p[0] in ("pwild", "pbind"):
+            if p[0] in ("pwild", "pbind") or p == ("plit", None):
                 return True
-            if q[0] in ("pwild", "pbind"):
+            if q[0] in ("pwild", "pbind") or q == ("plit", None):
                 return False
             if p[0] == "plit" and q[0] == "plit":
                 return p[1] == q[1] and type(p[1]) == type(q[1])
@@ -1399,6 +1453,14 @@ class Gen:
             if n in [v[0] for sc in self.scopes[:-1] for v in sc.vars]:
                 self.features.add("shadow")
             return [s]
+        if self.hosts and k >= 30 and k < 36:
+            h = r.choice(self.hosts)
+            e = self.hcall(h, d)
+            if h["ret"] != VOID:
+                n = self.fresh("x")
+                self.declare(n, h["ret"], False)
+                return [("let", n, h["ret"], e, False, False)]
+            return [("expr", e)]
         if k < 36:
             p = self.print_stmt(d)
             return [p]
@@ -1619,6 +1681,8 @@ class Gen:
     def gen(self):
         r = self.r
         self.setup_types()
+        if self.cfg["hosts"]:
+            self.setup_hosts()
         self.scopes = [Scope()]
         self.global_vars = []
         main = []
@@ -1650,7 +1714,7 @@ class Gen:
             main.append(self.print_stmt(2))
             self.final_ty = None
         return {"structs": self.structs, "enums": self.enums, "funcs": self.funcs, "main": main,
-                "final_ty": self.final_ty, "features": sorted(self.features)}
+                "final_ty": self.final_ty, "features": sorted(self.features), "hosts": self.hosts}
 
 
 def gen_program(rng, cfg=None):
@@ -1664,7 +1728,7 @@ def gen_program(rng, cfg=None):
 def _is_expr(n):
     return isinstance(n, tuple) and n and isinstance(n[0], str) and n[0] in (
         "lit", "var", "bin", "neg", "not", "if", "block", "match", "call", "calll", "lam", "tuple", "array", "struct",
-        "variant", "field", "index", "method", "try", "unwrap", "str")
+        "variant", "field", "index", "method", "try", "unwrap", "str", "hcall")
 
 
 def _walk(node, path, out):
